@@ -170,9 +170,107 @@ def post(ctx, c, rep):
             return
 
 
+def boot_cases(ctx):
+    """El Torito boot files replaced in place (they have one more kind of record attached: the catalog entry): the call
+    succeeds, the entry still points at the first sector of the new bytes, a requested boot info table describes the new
+    content, the file reads back under all of its names, everything else is untouched."""
+    import pycdlib
+    tmpdir = tempfile.mkdtemp(prefix='verif-c17b-')
+    path = os.path.join(tmpdir, 'boot.iso')
+    try:
+        for label, kw, names in (('plain', {}, {}), ('joliet-rr', {'joliet': 3, 'rock_ridge': '1.09'}, {'joliet_path': '/boot', 'rr_name': 'boot'}),
+                                 ('udf', {'udf': '2.60'}, {'udf_path': '/boot'})):
+            for table in (False, True):
+                for old_len, new_len in ((3000, 2049), (3000, 4096), (2048, 100), (100, 2048)):
+                    rp = {'kind': 'boot', 'label': label, 'table': table, 'old_len': old_len, 'new_len': new_len}
+                    sig = lambda what: 'C17.boot/%s/%s' % ('table' if table else 'no-table', what)   # noqa
+                    old = bytes((i * 7 + 3) % 253 for i in range(old_len))
+                    other = b'other file' * 300
+                    with isoapi.frozen_time():
+                        iso = pycdlib.PyCdlib()
+                        iso.new(interchange_level=3, **kw)
+                        okw = {k: v.replace('boot', 'other') for k, v in names.items()}
+                        iso.add_fp(io.BytesIO(old), old_len, iso_path='/BOOT.;1', **names)
+                        iso.add_fp(io.BytesIO(other), len(other), iso_path='/OTHER.;1', **okw)
+                        iso.add_eltorito('/BOOT.;1', boot_info_table=table, boot_load_size=4)
+                        iso.write(path)
+                        iso.close()
+                    before = open(path, 'rb').read()
+                    rep0 = isoapi.read_image(ctx, path)
+                    new = bytes((i * 11 + 5) % 251 for i in range(new_len))
+                    g = pycdlib.PyCdlib()
+                    g.open(path, 'r+b')
+                    try:
+                        g.modify_file_in_place(io.BytesIO(new), new_len, '/BOOT.;1')
+                    except Exception as e:  # noqa
+                        ctx.violation(sig('modify-raises/%s' % isoapi.exc_class(e)), 'modify_file_in_place on an El Torito boot file (%s, %d -> %d bytes) raised %r' % (
+                            label, old_len, new_len, e), rp)
+                        continue
+                    finally:
+                        try:
+                            g.close()
+                        except Exception:  # noqa
+                            pass
+                    ctx.count(key=('boot', label, table, old_len, new_len), nontrivial=True, kind='boot:%s:%s' % (label, 'table' if table else 'plain'))
+                    after = open(path, 'rb').read()
+                    rep1 = isoapi.read_image(ctx, path)
+                    for e in rep1.errs:
+                        if e not in rep0.errs:
+                            ctx.violation(sig('invalid/%s' % e.split(':')[0]), 'after the modification the reader reports %s' % e[:140], rp)
+                    for code, detail in isoapi.check_allocs(rep1):
+                        ctx.violation(sig('alloc/%s' % code), detail, rp)
+                    bents = [e for e in rep1.entries if e.startswith('B:')]
+                    f = dict((x.rstrip('0123456789,-'), x[len(x.rstrip('0123456789,-')):]) for x in bents[0].split(':')[2:]) if bents else {}
+                    rba = int(f.get('rba', -1))
+                    expect = new
+                    if table:
+                        want = bytes.fromhex(ctx.driver.ask(['bit 16 %d %d %s' % (rba, new_len, new.hex())])[0])
+                        expect = new[:8] + want + new[64:]
+                    if after[rba * 2048: rba * 2048 + len(expect)] != expect:
+                        ctx.violation(sig('stored-bytes'), 'the boot entry points at sector %d, which does not hold the new boot file%s' % (
+                            rba, ' with its boot info table' if table else ''), rp)
+                    h = pycdlib.PyCdlib()
+                    try:
+                        h.open(path)
+                        for key, val in [('iso_path', '/BOOT.;1')] + [(k, v) for k, v in names.items() if k != 'rr_name']:
+                            out = io.BytesIO()
+                            h.get_file_from_iso_fp(out, **{key: val})
+                            if out.getvalue() != expect[:new_len]:
+                                ctx.violation(sig('readback/%s' % key.split('_')[0]), '%s=%s reads %d bytes that are not the new content' % (key, val, len(out.getvalue())), rp)
+                        out = io.BytesIO()
+                        h.get_file_from_iso_fp(out, iso_path='/OTHER.;1')
+                        if out.getvalue() != other:
+                            ctx.violation(sig('other-file'), 'the other file changed', rp)
+                        h.close()
+                    except Exception as e:  # noqa
+                        ctx.violation(sig('reopen-fails'), 'the modified image cannot be read: %r' % e, rp)
+                    # view: only the boot file's length and content changed
+                    v0 = sorted(e for e in rep0.entries if e[:2] != 'B:' and ':F:' in e and '626f6f74' not in e.lower() and '424f4f54' not in e)
+                    v1 = sorted(e for e in rep1.entries if e[:2] != 'B:' and ':F:' in e and '626f6f74' not in e.lower() and '424f4f54' not in e)
+                    if v0 != v1:
+                        ctx.violation(sig('effect'), 'entries other than the boot file changed: %s' % [x[:80] for x in sorted(set(v0) ^ set(v1))[:3]], rp)
+                    allowed = set()
+                    for lab, first, cnt in rep0.allocs:
+                        if lab.startswith('vd') or lab.startswith('dir:') or lab.startswith('udf:fe:') or lab.startswith('udf:fid:'):
+                            allowed.update(range(first, first + cnt))
+                    allowed.update(range(rba, rba + -(-old_len // 2048)))
+                    changed = {i // 2048 for i in range(len(after)) if after[i] != before[i]} if after != before else set()
+                    if len(after) != len(before) or not changed <= allowed:
+                        ctx.violation(sig('touched'), 'sectors %s were modified (or the length changed)' % sorted(changed - allowed)[:5], rp)
+    finally:
+        shutil.rmtree(tmpdir, ignore_errors=True)
+
+
 def run(ctx):
+    boot_cases(ctx)
     c01.run(ctx, focus='C17', post=post, n_quick=100, n_thorough=2500)
 
 
 def replay(ctx, obj):
+    r = obj.get('replay', obj)
+    if r.get('kind') == 'boot':
+        boot_cases(ctx)
+        for v in ctx.violations:
+            core.log('violation:', v['signature'], v['summary'])
+        return [v['signature'] for v in ctx.violations]
     return c01.replay(ctx, obj, focus='C17', post=post)
